@@ -23,7 +23,7 @@ func init() {
 		Level:     "exploration",
 		Technique: "bounded exhaustive configuration enumeration (table x creation path x wrapper nesting x target format x entry point) on the real code; differential oracle: every route to the same content must give the bytes of the canonical route",
 		Rule: "14 tables (regular, ragged, zero-cell rows, separators first/last/consecutive, multi-line and wide texts, no header, empty header, header only, post-attach cell, alignment property set) x 16 creation paths (tabular.New, the five sub-package New, auto.New of every listed style) " +
-			"x every nesting of <=2 (thorough <=3) wrappers from {csv, html, json, markdown, texttable, auto} x 6 target formats (csv, json, markdown, html, text default, text utf8-light) x every existing entry point (package Render/RenderTo, Wrap(t).Render/RenderTo, auto.Render/RenderTo); " +
+			"x every nesting of <=2 (thorough <=3) wrappers from {csv, html, json, markdown, texttable, auto} x 6 target formats (csv, json, markdown, html, text default, text utf8-light) x every existing entry point (package Render/RenderTo, Wrap(t).Render/RenderTo, auto.Render/RenderTo, and the created/outermost object's own Render/RenderTo when it is a renderer of the target format); " +
 			"non-trivial = a non-core creation path or a non-empty wrapper chain; distinct by (table, path, chain, target)",
 		Assumptions: []string{"html has no package-level Render/RenderTo: only entry points that exist are compared", "the canonical route is tabular.New() + X.Wrap(t).Render()"},
 		QuickBudget: 150 * time.Second, ThoroughBudget: 25 * time.Minute,
@@ -89,20 +89,33 @@ func c10Tables() []c10Table {
 type c10Creator struct {
 	name string
 	mk   func() tabular.Table
+	self string // the target format this object renders by itself ("" = none of the compared targets)
+}
+
+func selfFormatOfStyle(s string) string {
+	switch s {
+	case "csv", "json", "markdown", "html":
+		return s
+	case "utf8-heavy":
+		return "text(default)"
+	case "utf8-light":
+		return "text(utf8-light)"
+	}
+	return ""
 }
 
 func c10Creators() []c10Creator {
 	cs := []c10Creator{
-		{"tabular.New", func() tabular.Table { return tabular.New() }},
-		{"csv.New", func() tabular.Table { return csv.New() }},
-		{"html.New", func() tabular.Table { return thtml.New() }},
-		{"json.New", func() tabular.Table { return tjson.New() }},
-		{"markdown.New", func() tabular.Table { return markdown.New() }},
-		{"texttable.New", func() tabular.Table { return texttable.New() }},
+		{"tabular.New", func() tabular.Table { return tabular.New() }, ""},
+		{"csv.New", func() tabular.Table { return csv.New() }, "csv"},
+		{"html.New", func() tabular.Table { return thtml.New() }, "html"},
+		{"json.New", func() tabular.Table { return tjson.New() }, "json"},
+		{"markdown.New", func() tabular.Table { return markdown.New() }, "markdown"},
+		{"texttable.New", func() tabular.Table { return texttable.New() }, "text(default)"},
 	}
 	for _, s := range auto.ListStyles() {
 		s := s
-		cs = append(cs, c10Creator{"auto.New(" + s + ")", func() tabular.Table { return auto.New(s) }})
+		cs = append(cs, c10Creator{"auto.New(" + s + ")", func() tabular.Table { return auto.New(s) }, selfFormatOfStyle(s)})
 	}
 	return cs
 }
@@ -110,15 +123,16 @@ func c10Creators() []c10Creator {
 type c10Wrapper struct {
 	name string
 	wrap func(t tabular.Table) tabular.Table
+	self string
 }
 
 var c10Wrappers = []c10Wrapper{
-	{"csv.Wrap", func(t tabular.Table) tabular.Table { return csv.Wrap(t) }},
-	{"html.Wrap", func(t tabular.Table) tabular.Table { return thtml.Wrap(t) }},
-	{"json.Wrap", func(t tabular.Table) tabular.Table { return tjson.Wrap(t) }},
-	{"markdown.Wrap", func(t tabular.Table) tabular.Table { return markdown.Wrap(t) }},
-	{"texttable.Wrap", func(t tabular.Table) tabular.Table { return texttable.Wrap(t) }},
-	{"auto.Wrap(ascii-simple)", func(t tabular.Table) tabular.Table { return auto.Wrap(t, "ascii-simple") }},
+	{"csv.Wrap", func(t tabular.Table) tabular.Table { return csv.Wrap(t) }, "csv"},
+	{"html.Wrap", func(t tabular.Table) tabular.Table { return thtml.Wrap(t) }, "html"},
+	{"json.Wrap", func(t tabular.Table) tabular.Table { return tjson.Wrap(t) }, "json"},
+	{"markdown.Wrap", func(t tabular.Table) tabular.Table { return markdown.Wrap(t) }, "markdown"},
+	{"texttable.Wrap", func(t tabular.Table) tabular.Table { return texttable.Wrap(t) }, "text(default)"},
+	{"auto.Wrap(ascii-simple)", func(t tabular.Table) tabular.Table { return auto.Wrap(t, "ascii-simple") }, ""},
 }
 
 type c10Entry struct {
@@ -272,6 +286,37 @@ func runC10(x *X) {
 			if out != want.out {
 				x.Fail("C10.same_bytes", tags, "%s differs from tabular.New()+Wrap(t).Render(); table %q created by %s wrapped by %v\ngot:\n%s\nwant:\n%s", en.name, tb.name, cr.name, names, out, want.out)
 				continue
+			}
+		}
+		// the object itself, when it is a renderer of the target format, rendered without any further wrapping
+		self := cr.self
+		if len(chain) > 0 {
+			self = c10Wrappers[chain[len(chain)-1]].self
+		}
+		if self == tg.name {
+			var out, out2 string
+			var err, err2 error
+			if p, val, site := Safe(func() {
+				t := cr.mk()
+				tb.build(t)
+				for _, k := range chain {
+					t = c10Wrappers[k].wrap(t)
+				}
+				rt, ok := t.(auto.RenderTable)
+				if !ok {
+					panic(fmt.Sprintf("harness: %T is not a RenderTable", t))
+				}
+				out, err = rt.Render()
+				var b bytes.Buffer
+				err2 = rt.RenderTo(&b)
+				out2 = b.String()
+			}); p {
+				x.FailSite("C10.no_panic", append(tags, "panic"), site, "the created object's own Render panicked: %v; table %q created by %s wrapped by %v", val, tb.name, cr.name, names)
+			} else {
+				x.Clause("C10.same_bytes")
+				if out != want.out || (err != nil) != (want.err != nil) || (err == nil && out2 != want.out) || (err2 != nil) != (want.err != nil) {
+					x.Fail("C10.same_bytes", append(tags, "own_render_of_created_object"), "the object's own Render()/RenderTo() (no further wrapping) differs from tabular.New()+Wrap(t).Render(); table %q created by %s wrapped by %v\nRender (err %v):\n%s\nRenderTo (err %v):\n%s\nwant (err %v):\n%s", tb.name, cr.name, names, err, out, err2, out2, want.err, want.out)
+				}
 			}
 		}
 		x.Outcome(fmt.Sprint(ti, gi, want.err != nil))
